@@ -180,6 +180,7 @@ CLAIMS['C17'] = dict(
 
 # round 6
 _ROUND6 = {
+    'C11': 'Also (R11f): the chunk index built when shards are registered leaves a chunk out only because its in-xorb offset does not fit the narrow field of the index element, never on a test of another value.',
     'C05': 'Also (R05f): the deduper\'s self-reference map is emptied wherever the pending chunk list is emptied, and a hash is entered with the position its chunk is then pushed at, so the local matcher never answers with positions of a previous xorb.',
     'C12': 'R12d: the cache file header reader loops over exactly the count it read (the loop bound is the length token itself, not a value derived from it), matching the writer\'s (len, len x u32).',
     'C19': 'Also (R19g): a temporary file left by an interrupted process is never continued — every temporary name of SafeFileCreator carries a random component, or the open truncates.',
